@@ -9,6 +9,7 @@ import numpy as np
 from mc import alphabet as A, refmodel as R
 from mc.frames import Frame
 
+COND_MAX = 100.0
 KIND = {"qst": "state", "povmt": "povm", "qpt": "gate", "qmpt": "mprocess"}
 
 # ------------------------------------------------------------------------------------------------ testers
@@ -125,10 +126,15 @@ def tester_povms_ref(d, name, seed):
 def truths_ref(tomo, d, m, seed):
     """dict name -> reference data of physical true objects"""
     if tomo == "qst":
-        return A.states_ref(d, seed)
+        st = dict(A.states_ref(d, seed))
+        if d == 2:
+            st["aligned_x0"] = _rot([_bloch((1, 0, 0))], 2, seed)[0]       # eigenstate of the tester 'px': a point-mass schedule
+        return st
     if tomo == "povmt":
-        pv = A.povms_ref(d, seed)
-        return {k: v for k, v in pv.items() if len(v) == m}
+        pv = {k: v for k, v in A.povms_ref(d, seed).items() if len(v) == m}
+        if d == 2 and m == 2:
+            pv["aligned_pz"] = _rot([_bloch((0, 0, 1)), _bloch((0, 0, -1))], 2, seed)   # deterministic on the testers z0, z1
+        return pv
     if tomo == "qpt":
         return A.gates_ref(d, seed)
     ins = A.instruments_ref(d, seed)
@@ -257,6 +263,9 @@ class Setup:
             self.probs.append(pj)
             self.M.append(len(pj))
         self.min_prob = min(float(q.min()) for q in self.probs)
+        self.cond = float(np.linalg.cond(np.vstack(self.G)))
+        if not self.cond <= COND_MAX:
+            raise AssertionError("harness: tester set of %r is ill conditioned (cond %.3g); the 1e-9 tolerance is not justified" % (p, self.cond))
 
     def base_dataset(self, n_list=None):
         return [((n_list[j] if n_list else 1), self.probs[j].copy()) for j in range(self.S)]
